@@ -502,3 +502,28 @@ func (x *Exec) familyForPrefix(s *State, it *Value) (string, int, bool) {
 	}
 	return found, nk, found != ""
 }
+
+func init() {
+	// utils.SafeMath(f, onOverflow): f runs; if an SDK big-number overflow panic occurs inside it, onOverflow runs instead
+	// (on the state reached so far — f only assigns captured results here). Overflow is modelled as an unconstrained choice.
+	builtins["github.com/comdex-official/comdex/types.SafeMath"] = func(x *Exec, s *State, r *Value, a []*Value, c *ast.CallExpr) []*Value {
+		if a[0].K != KFunc || a[0].Fn == nil || a[0].Fn.Lit == nil || a[1].K != KFunc || a[1].Fn == nil || a[1].Fn.Lit == nil {
+			x.fail(c.Pos(), "SafeMath with non-literal functions")
+		}
+		ovf := Fresh("safemath.overflow", SBool)
+		sa := s.Clone()
+		sa.Assume(Not(ovf))
+		x.callClosure(sa, a[0].Fn, nil, c.Pos())
+		sb := s.Clone()
+		sb.Assume(ovf)
+		x.callClosure(sb, a[1].Fn, nil, c.Pos())
+		m := x.merge(Not(ovf), sa, sb)
+		if m == nil {
+			s.PC = False
+			return nil
+		}
+		*s = *m
+		x.Trusted["utils.SafeMath: an overflow panic of the SDK big numbers inside f is an unconstrained choice; f's partial writes before the panic are not modelled (f only assigns results)"]++
+		return nil
+	}
+}
